@@ -369,8 +369,10 @@ func runCase(ctx context.Context, rep *mon.Reporter, rng *mon.Rand, c *Case, idx
 			nested = true
 		}
 	}
-	_ = conform
-	if (len(c.Maps)+len(c.Statics) >= 2 || nested) {
+	if conform {
+		rep.Count("nonoverlap_sets_conforming_in_every_run", 1)
+	}
+	if len(c.Maps)+len(c.Statics) >= 2 || nested {
 		rep.NonTrivial(c.digest())
 	}
 	rep.Distinct("type_pairs", fmt.Sprintf("%v>%v", c.Preds[0].Type, c.Tgt))
@@ -640,5 +642,3 @@ func (c *Case) consequences(ctx context.Context, b *built, before *snapshot) str
 	}
 	return strings.Join(parts, " | ")
 }
-
-var _ = reflect.TypeOf
